@@ -162,6 +162,39 @@ def check_stream(ctx, data, scs, bs, width, scratch):
     if [n for n, _, _ in parsed] != [s[0] for s in scs]:
         ctx.violation("record-set-or-order", f"{[n for n, _, _ in parsed]} vs {[s[0] for s in scs]}", case)
     ctx.count("streams:ok")
+    if len(data) % 4 == 0 and all(r[0] != "G" or r[1] >= 1 for _, rows in scs for r in rows) and all(rows for _, rows in scs):
+        # the function the CLI writes its FASTA outputs with, called with this assembly: the AGP it puts beside
+        # the FASTA, applied to the input, gives that FASTA (also for scaffolds that begin or end with a gap)
+        import tola.assembly.scripts.pretext_to_asm as p2a
+
+        wa = Path(scratch) / "wa.fa"
+        for q in (wa, wa.with_suffix(".agp")):
+            q.unlink(missing_ok=True)
+        fi2 = FastaIndex(p, bs)
+        fi2.auto_load()
+        try:
+            p2a.write_assembly(fi2, Assembly("wa", scaffolds=build_scaffolds(scs)), wa, "FASTA", True)
+        except (Exception, SystemExit) as e:  # noqa: BLE001
+            ctx.violation(f"write_assembly-raised-{type(e).__name__}", f"{e}", case)
+            return
+        finally:
+            fh = fi2.__dict__.get("fasta_fileandle")
+            if fh:
+                fh.close()
+        import gc
+
+        gc.collect()  # (write_assembly leaves its two handles to the garbage collector)
+        ctx.count("write_assembly:direct-calls")
+        agp_p = wa.with_suffix(".agp")
+        if not agp_p.exists():
+            ctx.violation("agp-companion-missing:write_assembly", f"{wa.name} without {agp_p.name}", case)
+            return
+        asm2, _ = agp_ref.parse(agp_p.read_text())
+        if wa.read_bytes() != fasta_ref.apply(asm2["scaffolds"], recs, 60):
+            ctx.violation("write_assembly-fasta-differs-from-its-agp-applied-to-input", f"scaffolds {scs}\nagp:\n{agp_p.read_text()[:400]}", case)
+            return
+        if any(rows[0][0] == "G" for _, rows in scs):
+            ctx.count("write_assembly:scaffold-beginning-with-a-gap")
     if len(ctx.samples) < 2:
         ctx.sample({"fasta": data[:200].decode("latin-1"), "scaffold": scs[0], "buffer": bs, "width": width, "output": got[:200].decode("latin-1")})
 
@@ -348,6 +381,8 @@ def gates(c, tier):
         "rows:gap-longer-than-buffer": 300,
         "monitor_evals:write_scaffold": 3000,
         "class:scaffold-without-rows": 100,
+        "write_assembly:direct-calls": 1000,
+        "write_assembly:scaffold-beginning-with-a-gap": 50,
         "class:sequence-line-longer-than-1MiB": 2,
         "cli:pairs-ok": 20,
         "cli:runs-under-python-O": 10,
